@@ -8383,6 +8383,21 @@ func (e *ExpressionEmitter) emitImageLoadRZSW(
 	// We record the block ID where we branch to merge (false path)
 	entryBlockID := e.currentBlock.LabelID
 
+	// The first conditional branch heads the selection and needs the
+	// OpSelectionMerge; which check comes first depends on the image (no level
+	// check for storage and multisampled images).
+	mergeDeclared := false
+	declareMerge := func() {
+		if mergeDeclared {
+			return
+		}
+		mergeDeclared = true
+		mb := e.newIB()
+		mb.AddWord(mergeBlockID)
+		mb.AddWord(0) // SelectionControl::None
+		e.backend.builder.funcAppend(mb.Build(OpSelectionMerge))
+	}
+
 	// Check level bounds
 	if levelID != nil {
 		// OpImageQueryLevels
@@ -8409,6 +8424,7 @@ func (e *ExpressionEmitter) emitImageLoadRZSW(
 		ib.AddWord(mergeBlockID)
 		ib.AddWord(0) // SelectionControl::None
 		e.backend.builder.funcAppend(ib.Build(OpSelectionMerge))
+		mergeDeclared = true
 
 		// False path goes to merge with null
 		phiEntries = append(phiEntries, phiEntry{nullID, e.currentBlock.LabelID})
@@ -8450,7 +8466,9 @@ func (e *ExpressionEmitter) emitImageLoadRZSW(
 
 		trueBlockID := e.backend.builder.AllocID()
 
-		// BranchConditional (no SelectionMerge for nested checks)
+		// BranchConditional (no SelectionMerge for nested checks: they exit
+		// to the merge block of the first check)
+		declareMerge()
 		e.consumeBlock(Instruction{
 			Opcode: OpBranchConditional,
 			Words:  []uint32{sampleCondID, trueBlockID, mergeBlockID},
@@ -8513,6 +8531,7 @@ func (e *ExpressionEmitter) emitImageLoadRZSW(
 		accessBlockID := e.backend.builder.AllocID()
 
 		// BranchConditional
+		declareMerge()
 		e.consumeBlock(Instruction{
 			Opcode: OpBranchConditional,
 			Words:  []uint32{coordCondID, accessBlockID, mergeBlockID},
